@@ -43,6 +43,73 @@ pub fn check_case(case: &CodecCase) -> CaseResult {
         .label_if(!pre.is_empty(), "encoder_from_nonempty_iovec"))
 }
 
+/// Encoder piped straight into a Decoder: after every encoder call the decoder reads from the
+/// encoder's consumer (`decode_read(&mut encoder.consumer(), ..)`: the consumer is an `io::Read`),
+/// both codecs are moved in memory now and then, and the decoded bytes must be the payload.
+pub fn check_piped(case: &CodecCase) -> CaseResult {
+    use hcobs::{Decoder, Encoder};
+    use std::num::NonZeroUsize;
+    let plain = case.payload.bytes();
+    let cuts = crate::engine::bytespec::resolve_cuts(&case.enc.cuts, plain.len(), &codec::plain_interesting(&plain));
+    let pieces = crate::engine::bytespec::split_at_cuts(&plain, &cuts);
+    let mut encoder: Encoder<'_> = Encoder::new();
+    let mut decoder: Decoder<'_> = Decoder::new();
+    let mut piped = 0usize;
+    for (i, piece) in pieces.iter().enumerate() {
+        match i % 3 {
+            0 => encoder.encode(piece),
+            1 => encoder.encode_copy(piece),
+            _ => {
+                let mut src = *piece;
+                let a = encoder.read_n(&mut src, piece.len(), NonZeroUsize::new(2).unwrap()).map_err(|e| Fail::new("read_n:error", e.to_string()))?;
+                encoder.encode_anchored(a);
+            }
+        }
+        if i % 4 == 1 {
+            // A move of each codec (they are plain values: nothing may point into them).
+            let moved = std::mem::replace(&mut encoder, Encoder::new());
+            let boxed = Box::new(moved);
+            encoder = *boxed;
+            let moved = std::mem::replace(&mut decoder, Decoder::new());
+            decoder = *Box::new(moved);
+        }
+        // Ask for a generated amount: sometimes less than what is consumable, sometimes far more.
+        let avail = encoder.consumer().stable_prefix().iter().map(|s| s.len()).sum::<usize>();
+        let ask = match case.dec.cuts.len() % 3 {
+            0 => avail + 1000,
+            1 => avail / 2 + 1,
+            _ => 70_000,
+        };
+        let n = decoder
+            .decode_read(&mut encoder.consumer(), ask, NonZeroUsize::new(1 + i % 3).unwrap())
+            .map_err(|e| Fail::new("piped:decoder-rejects", format!("decode_read from the encoder's consumer failed after piece #{i}: {e}")))?;
+        piped += n;
+    }
+    let mut rest = encoder.finish();
+    loop {
+        let left = rest.total_size();
+        if left == 0 {
+            break;
+        }
+        let n = decoder
+            .decode_read(&mut rest.consumer(), left, NonZeroUsize::new(2).unwrap())
+            .map_err(|e| Fail::new("piped:decoder-rejects", format!("decode_read from the finished encoder output failed: {e}")))?;
+        if n == 0 {
+            return Err(Fail::new("piped:stalled", format!("{left} bytes of encoder output are left but the consumer reads as empty")));
+        }
+        piped += n;
+    }
+    let back = decoder
+        .finish()
+        .map_err(|e| Fail::new("piped:decoder-rejects", format!("finish() after piping {piped} bytes: {e}")))?
+        .flatten()
+        .map_err(|_| Fail::new("piped:pending", "placeholder pending in the decoder output".to_string()))?;
+    if back != plain {
+        return Err(Fail::new("piped:mismatch", codec::mismatch("encoder piped into a decoder through the consumer's Read", &back, &plain)));
+    }
+    Ok(Outcome::new(pieces.len() >= 2 && plain.len() >= 252).label_if(plain.len() >= 64_260, "payload>=64260"))
+}
+
 pub fn run(ctx: &Ctx, rep: &mut Report) {
     hcobs_small::enumerate_enc(ctx, rep, Focus::RoundTrip, ctx.tier.pick(7, 9));
     let cases = ctx.share(ctx.tier.pick(40_000, 400_000));
@@ -51,6 +118,8 @@ pub fn run(ctx: &Ctx, rep: &mut Report) {
     engine::drive(ctx, rep, "random-large", codec::codec_case(true), cases, check_case);
     let cases = ctx.share(ctx.tier.pick(6_000, 40_000));
     engine::drive(ctx, rep, "power-of-two-aligned", codec::aligned_case(), cases, check_case);
+    let cases = ctx.share(ctx.tier.pick(20_000, 400_000));
+    engine::drive(ctx, rep, "piped", codec::codec_case(false), cases, check_piped);
     let cases = ctx.share(ctx.tier.pick(4_000, 100_000));
     {
         let _ballast = super::iovec_sm::Ballast::new(super::iovec_sm::BALLAST_MIB);
@@ -61,6 +130,8 @@ pub fn run(ctx: &Ctx, rep: &mut Report) {
 fn replay(_ctx: &Ctx, group: &str, case: &Value) -> CaseResult {
     if group.starts_with("small-scope") {
         hcobs_small::check_small_enc(&parse_case::<SmallEnc>(case)?, Focus::RoundTrip)
+    } else if group == "piped" {
+        check_piped(&parse_case::<CodecCase>(case)?)
     } else if group.ends_with("with-ballast") {
         super::iovec_sm::check_with_ballast(&parse_case::<CodecCase>(case)?, check_case)
     } else {
@@ -71,7 +142,7 @@ fn replay(_ctx: &Ctx, group: &str, case: &Value) -> CaseResult {
 pub fn def() -> PropDef {
     PropDef {
         id: "C01",
-        rule: "A case is (payload description, encoder feeding plan, decoder feeding plan): the payload is a concatenation of segments with lengths biased to 0..8, 244..260, 63990..64030, 64254..64266 and bytes from FE/FD/00/FC-heavy alphabets, joined by FE FD-like tokens; each plan cuts its input into up to 12 pieces (cuts placed by fraction, near stuff sequences / chunk limits / chunk headers, or at absolute boundary positions), assigns an input method to each piece (borrow, copy, read_n+anchored, encode_read/decode_read with a scripted short-read/EINTR reader) and a consumer drain action after each call (consume slices, advance bytes, Read, everything, nothing). The power-of-two-aligned group places FE FD (or FE, FE FE FD, FE FD FE FD) after gaps of k*2^p-1+d bytes (p = 6..16, k = 1..4, d = -2..1) counted from the start of the input, from the end of the 252-byte first chunk or from the previous stuff sequence, and feeds half of the cases in one call, so that a stuff sequence straddles any power-of-two scan block of one call's slice. One case in ten starts both codecs from an iovec that already holds a few bytes (new_from_iovec). Oracle: the decoder accepts the encoder's output and returns the payload. Non-trivial: payload has >= 252 bytes or contains FE FD, and at least one side was fed in >= 2 calls. Distinct: hash of the serialised case. The small-scope group enumerates every string over {FE,FD,00} up to max_len with four tiny limit pairs, every 2-way cut and copy/borrow choice on both sides, through the hcobs::verif hook.",
+        rule: "A case is (payload description, encoder feeding plan, decoder feeding plan): the payload is a concatenation of segments with lengths biased to 0..8, 244..260, 63990..64030, 64254..64266 and bytes from FE/FD/00/FC-heavy alphabets, joined by FE FD-like tokens; each plan cuts its input into up to 12 pieces (cuts placed by fraction, near stuff sequences / chunk limits / chunk headers, or at absolute boundary positions), assigns an input method to each piece (borrow, copy, read_n+anchored, encode_read/decode_read with a scripted short-read/EINTR reader) and a consumer drain action after each call (consume slices, advance bytes, Read, everything, nothing). The power-of-two-aligned group places FE FD (or FE, FE FE FD, FE FD FE FD) after gaps of k*2^p-1+d bytes (p = 6..16, k = 1..4, d = -2..1) counted from the start of the input, from the end of the 252-byte first chunk or from the previous stuff sequence, and feeds half of the cases in one call, so that a stuff sequence straddles any power-of-two scan block of one call's slice. piped: the encoder is piped straight into a decoder through decode_read(&mut encoder.consumer(), ..) after every encoder call (asking for less or far more than is consumable), both codecs being moved in memory now and then; the decoded bytes must be the payload. One case in ten starts both codecs from an iovec that already holds a few bytes (new_from_iovec). Oracle: the decoder accepts the encoder's output and returns the payload. Non-trivial: payload has >= 252 bytes or contains FE FD, and at least one side was fed in >= 2 calls. Distinct: hash of the serialised case. The small-scope group enumerates every string over {FE,FD,00} up to max_len with four tiny limit pairs, every 2-way cut and copy/borrow choice on both sides, through the hcobs::verif hook.",
         assumptions: &[
             "scripted readers never return more than asked, never report end of file before the data ends, and never fail with a non-Interrupted error (C17 covers those)",
             "decoders are not fed after their first error",
